@@ -455,7 +455,13 @@ def main():
             if bad:
                 m = re.search(r'^(\w+(?:\.\w+)*(?:Error|Exception|Interrupt|Exit)\w*)', r['stderr'].strip().splitlines()[-1] if r['stderr'].strip() else '', re.M)
                 exc = m.group(1).split('.')[-1] if m else '?'
-                fr = re.findall(r'File "%s/(lib/[^"]+)", line \d+, in (\w+)' % re.escape(common.REPO), r['stderr'])
+                # with -j the worker's traceback is quoted before 'The above exception was the direct cause …': the failing frame is there
+                inner = r['stderr'].split('The above exception was the direct cause')[0]
+                if m is None or 'RemoteTraceback' in r['stderr']:
+                    m2 = re.findall(r'^(\w+(?:\.\w+)*(?:Error|Exception)\w*)', inner, re.M)
+                    if m2:
+                        exc = m2[-1].split('.')[-1]
+                fr = re.findall(r'File "%s/(lib/[^"]+)", line \d+, in (\w+)' % re.escape(common.REPO), inner)
                 site = (fr[-1][0] + ':' + fr[-1][1]) if fr else 'outside-lib'
                 if exc == 'RecursionError':
                     site = site.split(':')[0]
@@ -574,8 +580,9 @@ def main():
     generic = [('a', lambda n: 'a' * n), ('%', lambda n: '%' * n), ('{', lambda n: '{' * n), ('<a>', lambda n: '<a>' * (n // 3)), ('backslash', lambda n: '\\' * n),
                ('@a.', lambda n: '@a.' * (n // 3)), ('0', lambda n: '0' * n), ('%1$s', lambda n: '%1$s' * (n // 4)), ('{0}', lambda n: '{0}' * (n // 3)), ('blank', lambda n: ' ' * n),
                ('a b', lambda n: 'a b ' * (n // 4)), ('{0[', lambda n: '{0' + '[a]' * (n // 3)), ('%(', lambda n: '%(' * (n // 2)), ('n+', lambda n: 'n+' * min(n // 2, 150) + 'n' + ' ' * n)]
+    generic = [('(', lambda n: '(' * n), ('(x)', lambda n: 'a@b.c (' + '(x)' * (n // 3))] + generic
     if not chk.thorough:
-        generic = rng.sample(generic, 5)
+        generic = generic[:4] + rng.sample(generic[4:], 2)
     sizes = (4000, 64000) if chk.thorough else (2000, 16000)
     sweep = []
     swdeps = {}
